@@ -49,7 +49,13 @@ fn oracle(before: &Obs, after: &Obs, rule_applied: bool) -> Result<(), String> {
     if after.n > after.len {
         return Err(format!("n={} exceeds container length={}", after.n, after.len));
     }
-    if after.len > after.cutoff {
+    // every operator below the cutoff of the next sweep (always); the raw container length is bounded by the
+    // cutoff whenever it was so before the step (a user may have pinned the cutoff below the slot count of a
+    // container with trailing EMPTY slots: `run_user_cutoff_*`; the container never shrinks)
+    if top_of(after) > after.cutoff {
+        return Err(format!("an operator sits in slot {} at or beyond the sampler cutoff {} (n = {})", top_of(after) - 1, after.cutoff, after.n));
+    }
+    if before.len <= before.cutoff && after.len > after.cutoff {
         return Err(format!("container length {} exceeds the sampler cutoff {} (operators may sit beyond the next sweep)", after.len, after.cutoff));
     }
     if rule_applied {
@@ -75,6 +81,11 @@ fn oracle(before: &Obs, after: &Obs, rule_applied: bool) -> Result<(), String> {
         }
     }
     Ok(())
+}
+
+/// 1 + index of the last occupied slot (0 for an empty string)
+fn top_of(o: &Obs) -> usize {
+    o.occ.iter().rposition(|b| *b).map(|p| p + 1).unwrap_or(0)
 }
 
 struct Tracker {
@@ -800,6 +811,277 @@ fn run_history_generic(gen: &mut SplitMix64, nactions: usize, tr: &mut Tracker) 
     }
 }
 
+// ---------------------------------------------------------------------------------------------
+// USER-SUPPLIED CUTOFFS IN THE MIDDLE OF A RUN ("whatever initial cutoff the user supplied" applies to a
+// cutoff handed to a sampler that already holds operators as well).  Between steps the cutoff is set by hand
+//   * to the container's slot count (`set_cutoff(get_manager_ref().get_cutoff())` — right after a growing
+//     step that is the previous, smaller cutoff),
+//   * to the smallest value the string fits into (1 + last occupied slot; = n for a dense string),
+//   * to a value in [that, n + n/2 + 1): fits the string, lacks the margin,
+// through `set_cutoff`, the tempering trait's `set_op_cutoff`, or by rebuilding the sampler around a clone of
+// the container and the state through the manager hook of the constructor with that cutoff.  Always with
+// every operator below the new cutoff (a cutoff below an operator is outside the sweep's domain).  Then one
+// step through `timestep` or through `single_diagonal_step` (+ cluster) / `diagonal_update` (+ parts): the
+// ordinary step oracle — free slot, margin n + n/2 + 1 <= cutoff, exact rule max(old, n + n/2 + 1) — must
+// hold after that very step, whether or not the step added operators.
+// ---------------------------------------------------------------------------------------------
+fn pick_user_cutoff(gen: &mut SplitMix64, o: &Obs) -> (usize, &'static str) {
+    let lo = top_of(o).max(o.n); // top >= n always
+    let hi = o.n + o.n / 2 + 1; // first value that has the margin
+    match gen.below(4) {
+        0 => (o.len.max(lo), "slot_count"),
+        1 => (lo, "tight"),
+        _ => {
+            if lo < hi {
+                (lo + gen.below((hi - lo) as u64) as usize, "fits_without_margin")
+            } else {
+                (lo + gen.below(3) as usize, "sparse_string")
+            }
+        }
+    }
+}
+
+fn user_oracle(call: &str, c: usize, before: &Obs, after: &Obs) -> Result<(), String> {
+    let counted = after.occ.iter().filter(|b| **b).count();
+    if counted != after.n {
+        return Err(format!("{}: get_n()={} but {} occupied slots", call, after.n, counted));
+    }
+    if after.cutoff != c {
+        return Err(format!("{}({}): the sampler reports cutoff {}", call, c, after.cutoff));
+    }
+    if after.len != before.len.max(c) {
+        return Err(format!("{}({}): container length {} instead of {}", call, c, after.len, before.len.max(c)));
+    }
+    if after.n != before.n || after.occ[..before.occ.len()] != before.occ[..] {
+        return Err(format!("{}({}) changed the operators", call, c));
+    }
+    if top_of(after) > after.cutoff || after.n > after.cutoff {
+        return Err(format!("{}({}): generator bug, the string does not fit", call, c));
+    }
+    Ok(())
+}
+
+fn note_user_cutoff(kind: &str, how: &str, c: usize, o: &Obs) {
+    stat(&format!("usercut_{}_{}", kind, how), 1);
+    if c < o.n + o.n / 2 + 1 {
+        stat(&format!("usercut_{}_below_margin", kind), 1);
+    }
+    if c == o.n && o.n > 0 {
+        stat(&format!("usercut_{}_equal_n", kind), 1);
+    }
+    if c < o.cutoff {
+        stat(&format!("usercut_{}_lowers_the_cutoff", kind), 1);
+    }
+    if c < o.len {
+        stat(&format!("usercut_{}_below_slot_count", kind), 1);
+    }
+}
+
+fn run_user_cutoff_ising(gen: &mut SplitMix64, steps: usize, tr: &mut Tracker) {
+    let nv = gen.range(2, 5) as usize;
+    let rvb = gen.chance(1, 4);
+    let edges = make_edges(gen, nv, rvb);
+    let gamma = *gen.pick(&[0.25, 0.5, 1.0, 2.0]);
+    let h = if gen.chance(1, 4) { *gen.pick(&[-0.5, 0.5]) } else { 0.0 };
+    let beta = *gen.pick(&[1.0, 2.0, 4.0, 8.0]);
+    let c0 = if gen.coin() { 1 + gen.below(3) as usize } else { 5 + gen.below(30) as usize };
+    let hb = gen.coin();
+    let path = gen.below(3); // 0 timestep, 1 single_diagonal_step + cluster, 2 either per step
+    let mut g = G::new_with_rng(edges.clone(), gamma, h, c0, SplitMix64::new(gen.next()), None);
+    let apply_opts = |g: &mut G| {
+        if hb {
+            g.set_enable_heatbath(true);
+        }
+        if rvb {
+            g.set_run_rvb(true);
+        }
+    };
+    apply_opts(&mut g);
+    stat("usercut_ising_runs", 1);
+    for t in 0..steps {
+        if t >= 1 && gen.chance(2, 3) {
+            let before = obs_g(&g);
+            let (c, how) = pick_user_cutoff(gen, &before);
+            note_user_cutoff("ising", how, c, &before);
+            let nt = c < before.n + before.n / 2 + 1;
+            match gen.below(3) {
+                0 => {
+                    g.set_cutoff(c);
+                    let after = obs_g(&g);
+                    emit(nt, &format!("usercut ising-set_cutoff {} {} {}", c, before.cutoff, bits(&before.occ)), &format!("{} {} {} 1", after.cutoff, after.len, after.n), Some(user_oracle("set_cutoff", c, &before, &after)));
+                }
+                1 => {
+                    qmc::sse::parallel_tempering::SwapManagers::set_op_cutoff(&mut g, c);
+                    let after = obs_g(&g);
+                    emit(nt, &format!("usercut ising-set_op_cutoff {} {} {}", c, before.cutoff, bits(&before.occ)), &format!("{} {} {} 1", after.cutoff, after.len, after.n), Some(user_oracle("set_op_cutoff", c, &before, &after)));
+                }
+                _ => {
+                    // snapshot (container + state), restore into a new sampler with the cutoff `c`
+                    let manager = g.get_manager_ref().clone();
+                    let state = g.clone_state();
+                    let r = catch(|| G::new_with_rng_with_manager_hook(edges.clone(), gamma, h, c, SplitMix64::new(gen.next()), Some(state), |_, _| manager.clone()));
+                    match r {
+                        Ok(mut g2) => {
+                            apply_opts(&mut g2);
+                            let after = obs_g(&g2);
+                            stat("usercut_ising_restored_through_manager_hook", 1);
+                            emit(nt, &format!("restore ising-manager_hook {} {}", c, bits(&before.occ)), &format!("{} {} {} 1", after.cutoff, after.len, after.n), Some(user_oracle("new_with_rng_with_manager_hook", c, &before, &after)));
+                            g = g2;
+                        }
+                        Err(p) => {
+                            emit(true, &format!("restore ising-manager_hook {} {}", c, bits(&before.occ)), "panic", Some(Err(format!("restore panicked: {}", p))));
+                            return;
+                        }
+                    }
+                }
+            }
+        }
+        let split = path == 1 || (path == 2 && gen.coin());
+        let before = obs_g(&g);
+        let r = catch(|| {
+            if split {
+                g.single_diagonal_step(beta);
+                let mid = obs_g(&g);
+                if rvb {
+                    g.single_rvb_sweep(None);
+                }
+                g.single_cluster_step();
+                mid
+            } else {
+                g.timestep(beta);
+                obs_g(&g)
+            }
+        });
+        let label = format!("user-ising{}{}-{}", if hb { "-hb" } else { "" }, if rvb { "-rvb" } else { "" }, if split { "single_diagonal_step" } else { "timestep" });
+        match r {
+            Ok(mid) => {
+                let after = obs_g(&g);
+                if before.cutoff < before.n + before.n / 2 + 1 {
+                    stat("usercut_ising_steps_entered_without_margin", 1);
+                    if mid.n <= before.n {
+                        stat(if split { "usercut_ising_single_diagonal_steps_without_margin_adding_no_operator" } else { "usercut_ising_timesteps_without_margin_adding_no_operator" }, 1);
+                    }
+                }
+                emit_step(&label, &before, &mid, tr);
+                if split {
+                    let same = mid.cutoff == after.cutoff && mid.len == after.len && mid.n == after.n && mid.occ == after.occ;
+                    emit(false, &format!("idle ising-rvb+cluster {} {} {}", mid.cutoff, mid.len, mid.n), &format!("{} {} {}", after.cutoff, after.len, after.n), Some(if same { Ok(()) } else { Err("rvb/cluster moves changed occupancy, count or cutoff".into()) }));
+                }
+            }
+            Err(p) => {
+                emit(true, &format!("step {} {} {} {}", label, before.cutoff, before.len, before.n), "panic", Some(Err(format!("step panicked: {} (cutoff={} len={} n={} top={})", p, before.cutoff, before.len, before.n, top_of(&before)))));
+                return;
+            }
+        }
+    }
+}
+
+fn run_user_cutoff_generic(gen: &mut SplitMix64, steps: usize, tr: &mut Tracker) {
+    let nv = gen.range(1, 4) as usize;
+    let gamma = *gen.pick(&[0.5, 1.0, 2.0]);
+    let js: Vec<f64> = (0..nv - 1).map(|_| *gen.pick(&[-1.0, 0.5, 1.0])).collect();
+    let beta = *gen.pick(&[1.0, 2.0, 4.0, 8.0]);
+    let hb = gen.coin();
+    let converted = nv >= 2 && gen.coin();
+    let path = gen.below(3);
+    let ising_edges: Vec<((usize, usize), f64)> = js.iter().enumerate().map(|(v, j)| ((v, v + 1), *j)).collect();
+    let mut q = if converted {
+        G::new_with_rng(ising_edges.clone(), gamma, 0.0, 1 + gen.below(3) as usize, SplitMix64::new(gen.next()), None).into_qmc()
+    } else {
+        make_generic(gen.next(), nv, gamma, &js)
+    };
+    q.set_do_heatbath(hb);
+    stat("usercut_generic_runs", 1);
+    for t in 0..steps {
+        if t >= 1 && gen.chance(2, 3) {
+            let before = obs_q(&q);
+            let (c, how) = pick_user_cutoff(gen, &before);
+            note_user_cutoff("generic", how, c, &before);
+            let nt = c < before.n + before.n / 2 + 1;
+            match gen.below(3) {
+                0 => {
+                    q.set_cutoff(c);
+                    let after = obs_q(&q);
+                    emit(nt, &format!("usercut generic-set_cutoff {} {} {}", c, before.cutoff, bits(&before.occ)), &format!("{} {} {} 1", after.cutoff, after.len, after.n), Some(user_oracle("set_cutoff", c, &before, &after)));
+                }
+                1 => {
+                    qmc::sse::parallel_tempering::SwapManagers::set_op_cutoff(&mut q, c);
+                    let after = obs_q(&q);
+                    emit(nt, &format!("usercut generic-set_op_cutoff {} {} {}", c, before.cutoff, bits(&before.occ)), &format!("{} {} {} 1", after.cutoff, after.len, after.n), Some(user_oracle("set_op_cutoff", c, &before, &after)));
+                }
+                _ => {
+                    // restore: a new sampler around a clone of the container (manager hook of the constructor),
+                    // the same interactions, then the user's cutoff
+                    let manager = q.get_manager_ref().clone();
+                    let state = q.clone_state();
+                    let seed = gen.next();
+                    let r = catch(|| {
+                        let mut q2 = Q::new_with_state_with_manager_hook(nv, SplitMix64::new(seed), state, false, |_| manager.clone());
+                        for v in 0..nv {
+                            q2.make_interaction(vec![gamma; 4], vec![v]).unwrap();
+                        }
+                        for (v, j) in js.iter().enumerate() {
+                            q2.make_diagonal_interaction_and_offset(vec![-j, *j, *j, -j], vec![v, v + 1]).unwrap();
+                        }
+                        q2.set_do_heatbath(hb);
+                        q2.set_cutoff(c);
+                        q2
+                    });
+                    match r {
+                        Ok(q2) => {
+                            let after = obs_q(&q2);
+                            stat("usercut_generic_restored_through_manager_hook", 1);
+                            emit(nt, &format!("restore generic-manager_hook {} {}", c, bits(&before.occ)), &format!("{} {} {} 1", after.cutoff, after.len, after.n), Some(user_oracle("new_with_state_with_manager_hook + set_cutoff", c, &before, &after)));
+                            q = q2;
+                        }
+                        Err(p) => {
+                            emit(true, &format!("restore generic-manager_hook {} {}", c, bits(&before.occ)), "panic", Some(Err(format!("restore panicked: {}", p))));
+                            return;
+                        }
+                    }
+                }
+            }
+        }
+        let split = path == 1 || (path == 2 && gen.coin());
+        let before = obs_q(&q);
+        let r = catch(|| {
+            if split {
+                q.diagonal_update(beta);
+                let mid = obs_q(&q);
+                if q.should_do_cluster_update() {
+                    q.cluster_update().unwrap();
+                }
+                q.flip_free_bits();
+                mid
+            } else {
+                q.timestep(beta);
+                obs_q(&q)
+            }
+        });
+        let label = format!("user-generic{}-{}", if hb { "-hb" } else { "" }, if split { "diagonal_update" } else { "timestep" });
+        match r {
+            Ok(mid) => {
+                let after = obs_q(&q);
+                if before.cutoff < before.n + before.n / 2 + 1 {
+                    stat("usercut_generic_steps_entered_without_margin", 1);
+                    if mid.n <= before.n {
+                        stat("usercut_generic_steps_without_margin_adding_no_operator", 1);
+                    }
+                }
+                emit_step(&label, &before, &mid, tr);
+                if split {
+                    let same = mid.cutoff == after.cutoff && mid.len == after.len && mid.n == after.n && mid.occ == after.occ;
+                    emit(false, &format!("idle generic-loop+cluster {} {} {}", mid.cutoff, mid.len, mid.n), &format!("{} {} {}", after.cutoff, after.len, after.n), Some(if same { Ok(()) } else { Err("cluster moves changed occupancy, count or cutoff".into()) }));
+                }
+            }
+            Err(p) => {
+                emit(true, &format!("step {} {} {} {}", label, before.cutoff, before.len, before.n), "panic", Some(Err(format!("step panicked: {} (cutoff={} len={} n={} top={})", p, before.cutoff, before.len, before.n, top_of(&before)))));
+                return;
+            }
+        }
+    }
+}
+
 fn run_tempering(gen: &mut SplitMix64, parallel: bool) {
     use qmc::sse::parallel_tempering::*;
     let nv = gen.range(2, 5) as usize;
@@ -1119,6 +1401,9 @@ fn main() {
         run_history_generic(&mut gen, steps, &mut tr);
         run_temperings(&mut gen, steps, &mut tr);
         run_beta_switch(&mut gen, steps, &mut tr);
+        run_user_cutoff_ising(&mut gen, steps, &mut tr);
+        run_user_cutoff_ising(&mut gen, steps, &mut tr);
+        run_user_cutoff_generic(&mut gen, steps, &mut tr);
         if rep % 3 == 0 {
             run_tempering(&mut gen, false);
             run_tempering(&mut gen, true);
